@@ -55,7 +55,33 @@ func ws(min int) *ast.Node {
 	return ast.Quant(&ast.Node{K: ast.KShort, S: "s"}, min, -1, false)
 }
 
-func (s *state) landmark(t *rapid.T) *ast.Node {
+func (s *state) landmark(t *rapid.T) *ast.Node { return s.landmarkFrom(t, nil) }
+
+// landmarkFrom draws a landmark whose cores use only the runes of pool (if given), so that
+// alternatives and consecutive landmarks overlap often.
+func (s *state) landmarkFrom(t *rapid.T, pool []rune) *ast.Node {
+	lit := func(min, max int) *ast.Node {
+		if pool == nil {
+			return s.accStr(t, min, max)
+		}
+		n := rapid.IntRange(min, max).Draw(t, "plen")
+		r := make([]rune, n)
+		for i := range r {
+			r[i] = rapid.SampledFrom(pool).Draw(t, "pch")
+		}
+		return ast.Lit(r...)
+	}
+	set := func() *ast.Node {
+		if pool == nil {
+			return s.smallSetPos(t)
+		}
+		e := &cls.Expr{}
+		n := rapid.IntRange(1, len(pool)).Draw(t, "pset")
+		for i := 0; i < n; i++ {
+			e.Items = append(e.Items, cls.Item{Kind: cls.Char, Lo: pool[i]})
+		}
+		return ast.Class(e)
+	}
 	one := func() *ast.Node {
 		seq := ast.Seq()
 		if k := rapid.IntRange(0, 3).Draw(t, "wsb"); k < 2 {
@@ -63,12 +89,12 @@ func (s *state) landmark(t *rapid.T) *ast.Node {
 		}
 		switch rapid.IntRange(0, 2).Draw(t, "corek") {
 		case 0:
-			seq.Kids = append(seq.Kids, s.accStr(t, 1, 3))
+			seq.Kids = append(seq.Kids, lit(1, 3))
 		case 1:
-			seq.Kids = append(seq.Kids, s.smallSetPos(t))
+			seq.Kids = append(seq.Kids, set())
 		default:
 			lo := rapid.IntRange(1, 2).Draw(t, "lo")
-			seq.Kids = append(seq.Kids, ast.Quant(s.smallSetPos(t), lo, lo+rapid.IntRange(0, 2).Draw(t, "span"), false))
+			seq.Kids = append(seq.Kids, ast.Quant(set(), lo, lo+rapid.IntRange(0, 2).Draw(t, "span"), false))
 		}
 		if k := rapid.IntRange(0, 3).Draw(t, "wsa"); k < 2 {
 			seq.Kids = append(seq.Kids, ws(k))
@@ -107,7 +133,11 @@ func Accel(t *rapid.T, cfg Cfg) *ast.Node {
 		}
 		return s.node(t, rapid.IntRange(0, 2).Draw(t, "taildepth"))
 	}
-	switch rapid.IntRange(0, 15).Draw(t, "accel") {
+	kind := rapid.IntRange(0, 19).Draw(t, "accel")
+	if kind >= 18 {
+		kind = 5 // the landmark chain has the most moving parts: give it extra weight
+	}
+	switch kind {
 	case 0: // leading string
 		return ast.Seq(s.accStr(t, 2, 6), tail())
 	case 1: // alternation of literals
@@ -163,8 +193,19 @@ func Accel(t *rapid.T, cfg Cfg) *ast.Node {
 	case 5: // landmark chain
 		seq := ast.Seq(ast.Quant(s.smallSet(t), rapid.IntRange(0, 1).Draw(t, "lmin"), -1, false))
 		n := rapid.IntRange(2, 3).Draw(t, "nlm")
+		var pool []rune
+		if rapid.Bool().Draw(t, "sharedpool") {
+			pool = []rune{rapid.SampledFrom(accelLetters).Draw(t, "p1"), rapid.SampledFrom(accelLetters).Draw(t, "p2")}
+			if rapid.Bool().Draw(t, "p3b") {
+				pool = append(pool, rapid.SampledFrom(accelLetters).Draw(t, "p3"))
+			}
+		}
 		for i := 0; i < n; i++ {
-			seq.Kids = append(seq.Kids, s.landmark(t))
+			lm := s.landmarkFrom(t, pool)
+			if rapid.IntRange(0, 3).Draw(t, "lmcap") == 0 {
+				lm = ast.Group(ast.GCap, lm)
+			}
+			seq.Kids = append(seq.Kids, lm)
 			if i > 0 && rapid.IntRange(0, 3).Draw(t, "gap") == 0 {
 				seq.Kids = append(seq.Kids, s.node(t, 1))
 			}
@@ -210,6 +251,18 @@ func Accel(t *rapid.T, cfg Cfg) *ast.Node {
 		return ast.Seq(s.accStr(t, 4, 10), tail())
 	case 12: // optional prefix then literal
 		return ast.Seq(ast.Quant(s.accStr(t, 1, 2), 0, 1, false), s.accStr(t, 2, 4), tail())
+	case 15: // a leading capture group that starts with an unbounded loop, referenced later
+		loop := ast.Quant(s.smallSet(t), rapid.IntRange(0, 1).Draw(t, "lmin"), -1, rapid.IntRange(0, 3).Draw(t, "llazy") == 0)
+		g := ast.Group(ast.GCap, ast.Seq(loop, s.accStr(t, 1, 2)))
+		mid := ast.Empty()
+		if rapid.Bool().Draw(t, "mid") {
+			mid = s.accStr(t, 1, 1)
+		}
+		return ast.Seq(g, mid, &ast.Node{K: ast.KBackref, Num: 1}, tail())
+	case 16: // an optional loop whose body starts with a positive lookahead, at the very start
+		body := ast.Group(ast.GNon, ast.Seq(ast.Group(ast.GLookahead, s.accStr(t, 1, 2)), s.node(t, 1)))
+		q := ast.Quant(body, 0, rapid.SampledFrom([]int{1, 2, -1}).Draw(t, "qmax"), rapid.IntRange(0, 3).Draw(t, "qlazy") == 0)
+		return ast.Seq(q, tail())
 	case 14: // U+FFFD-centric: invalid bytes of a string input decode to this rune, raw-string searches see other bytes
 		seq := ast.Seq()
 		n := rapid.IntRange(1, 4).Draw(t, "nfffd")
